@@ -234,13 +234,29 @@ func runClientNet(c *Case) ([]Obs, any) {
 			case "sleep":
 				time.Sleep(time.Duration(op.Int(0)) * time.Millisecond)
 				return Obs{OK}
-			case "handled": // ms: handler callbacks so far (after waiting ms), accept-register notifications left out
-				time.Sleep(time.Duration(op.Int(0)) * time.Millisecond)
-				o := Obs{OK}
-				for _, ev := range h.take() {
-					if ev[0] == 5 {
-						continue
+			case "handled": // ms [n]: handler callbacks so far, accept-register notifications left out. With n > 0: waits
+				// (up to 8 s, so that a loaded machine does not matter) until n callbacks were seen, then ms/4 more
+				// for any that should not come; without n: after waiting ms
+				var evs [][2]int64
+				collect := func() {
+					for _, ev := range h.take() {
+						if ev[0] != 5 {
+							evs = append(evs, [2]int64{ev[0], ev[1]})
+						}
 					}
+				}
+				if len(op.Args) > 1 && op.Int(1) > 0 {
+					deadline := time.Now().Add(8 * time.Second)
+					for collect(); int64(len(evs)) < op.Int(1) && time.Now().Before(deadline); collect() {
+						time.Sleep(20 * time.Millisecond)
+					}
+					time.Sleep(time.Duration(op.Int(0)/4+50) * time.Millisecond)
+				} else {
+					time.Sleep(time.Duration(op.Int(0)) * time.Millisecond)
+				}
+				collect()
+				o := Obs{OK}
+				for _, ev := range evs {
 					o = append(o, ev[0], ev[1])
 				}
 				return o
